@@ -1,5 +1,7 @@
 import PytmeModel.Model.C11
 import PytmeModel.Proofs.C11
+import PytmeModel.Proofs.C11Star
+import PytmeModel.Proofs.C11Perm
 
 /-! # C11 — orientation tables round-trip; subsetting; extraction windows -/
 namespace Pm.C11
@@ -147,6 +149,54 @@ theorem text_roundtrip_count (d r : Nat) (hd : d ≤ 26) (hr1 : 1 ≤ r) (hr : r
   intro i hi
   simp [Table.ofRows, hi]
 
+/-- **text files with permuted named columns**: a file that carries the writer's `d + r` column names in *any*
+order `perm` (translation and angle columns may be interleaved; score and detail last), each row's tokens in the
+same order, is read into exactly the table the canonical file gives: the reader's header-driven order
+(`sorted(zip(names, range), reverse=True)` on the translation names and on the `euler_*` names) undoes every
+permutation, for every number of rows.  (`text_roundtrip` is the case `perm = 0, 1, …` — `text_permuted_identity`.) -/
+theorem text_roundtrip_permuted (d r : Nat) (hd : d ≤ 26) (hr1 : 1 ≤ r) (hr : r ≤ 26) (perm : List Nat)
+    (hp : perm.Perm (List.range (d + r))) (rows : List Row) (h : ∀ row ∈ rows, RowWf d r row) :
+    readText (writeTextPerm d r perm rows) = .ok (Table.ofRows d r rows) := by
+  have hperm : ∀ k ∈ perm, k < d + r := fun k hk => List.mem_range.mp (hp.subset hk)
+  have hw : ∀ toks ∈ permHeader d r perm :: rows.map (permTokens perm), rowWf toks := by
+    intro toks ht
+    rcases List.mem_cons.mp ht with rfl | ht
+    · exact permHeader_rowWf d r hd hr perm hperm
+    · obtain ⟨row, hrow, rfl⟩ := List.mem_map.mp ht
+      exact permTokens_rowWf d r perm hperm row (h row hrow).toRowOk (h row hrow).toks
+  unfold readText writeTextPerm
+  rw [parseLines_renderLines '\t' (by decide) (by decide) _ hw]
+  exact readTable_permuted d r hd hr1 hr perm hp rows (fun row hm => (h row hm).toRowOk)
+
+/-- the identity order is the writer's own file, so the permuted statement contains the plain round trip -/
+theorem text_permuted_identity (d r : Nat) (hd : d ≤ 26) (hr : r ≤ 26) (rows : List Row)
+    (h : ∀ row ∈ rows, RowWf d r row) : writeTextPerm d r (List.range (d + r)) rows = writeText d r rows :=
+  writeTextPerm_id d r hd hr rows (fun row hm => (h row hm).toRowOk)
+
+/-- the order the reader computes, in general: for names that are the images of any permutation `ks` of `0..n-1`
+under a key map on which Python's string order reverses the index order, gathering a row's values in the
+computed order restores `0..n-1` -/
+theorem text_sort_order_restores (ks : List Nat) (n : Nat) (hp : ks.Perm (List.range n)) (nm : Nat → Str)
+    (hnm : ∀ a, a < n → ∀ b, b < n → strLt (nm a) (nm b) = decide (b < a)) (v : Nat → Str) :
+    pick (ks.map v) (sortOrder (ks.map nm)) = .ok ((List.range n).map v) :=
+  (sortOrder_restores ks n hp nm hnm v).1
+
+/-- all hypotheses of `text_roundtrip_permuted` together -/
+example : readText (writeTextPerm 3 2 [3, 0, 4, 2, 1] [⟨[['1'], ['2'], ['3']], [['8'], ['9']], ['5'], ['7']⟩]) =
+    .ok ⟨[[['1'], ['2'], ['3']]], 3, [[['8'], ['9']]], 2, [['5']], [['7']]⟩ := by
+  refine text_roundtrip_permuted 3 2 (by omega) (by omega) (by omega) _ (by decide) _ ?_
+  intro row hr
+  simp only [List.mem_cons, List.mem_nil_iff, or_false] at hr
+  subst hr
+  exact { lt := rfl, lr := rfl, toks := by decide }
+example : [3, 0, 4, 2, 1].Perm (List.range (3 + 2)) := by decide
+example : writeTextPerm 3 2 [3, 0, 4, 2, 1] [⟨[['1'], ['2'], ['3']], [['8'], ['9']], ['5'], ['7']⟩] =
+    "euler_z\tz\teuler_y\tx\ty\tscore\tdetail\n8\t1\t9\t3\t2\t5\t7\n".toList := by decide
+example : readText (writeTextPerm 3 2 [3, 0, 4, 2, 1] [⟨[['1'], ['2'], ['3']], [['8'], ['9']], ['5'], ['7']⟩]) =
+    .ok (Table.ofRows 3 2 [⟨[['1'], ['2'], ['3']], [['8'], ['9']], ['5'], ['7']⟩]) := by decide
+example : [2, 0, 1].Perm (List.range 3) ∧
+    (∀ a, a < 3 → ∀ b, b < 3 → strLt (tnF a) (tnF b) = decide (b < a)) := by decide
+
 /-- the header-driven column order: a file whose translation / angle columns are written in
 another order (`x y z`, `euler_x …`) is read into the stored `z y x` order -/
 theorem text_header_order :
@@ -214,27 +264,121 @@ theorem tbl_roundtrip (sampling : Str) (hs : tokWf sampling) (rows : List TblRow
       mapM_ok (readTblRow ∘ TblRow.tokens sampling) TblRow.out (r :: rs) (fun x hx => (readTblRow_written x sampling (h x hx)).1)]
     rfl
 
+/-- the same for every value of the writer's further keyword arguments `name_prefix` and `subtomogram_size`
+(accepted, never written): the table and what is read back do not depend on them -/
+theorem tbl_roundtrip_opts (namePrefix size : Option Str) (sampling : Str) (hs : tokWf sampling) (rows : List TblRow)
+    (h : ∀ r ∈ rows, TblWf r) :
+    writeTblOpts namePrefix sampling size rows = writeTbl sampling rows ∧
+    readTbl (writeTblOpts namePrefix sampling size rows) = .ok (rows.map TblRow.out) :=
+  ⟨rfl, tbl_roundtrip sampling hs rows h⟩
+
+/-- number of entries and order of the Dynamo round trip: one output row per written row, the i-th one carrying the
+i-th row's translation (stored z, y, x order), angle tokens and score -/
+theorem tbl_roundtrip_count (namePrefix size : Option Str) (sampling : Str) (hs : tokWf sampling) (rows : List TblRow)
+    (h : ∀ r ∈ rows, TblWf r) :
+    ∃ out, readTbl (writeTblOpts namePrefix sampling size rows) = .ok out ∧ out.length = rows.length ∧
+      ∀ i (hi : i < rows.length), out[i]? = some ⟨rows[i].trans, rows[i].ang, rows[i].score⟩ := by
+  refine ⟨_, (tbl_roundtrip_opts namePrefix size sampling hs rows h).2, by simp, ?_⟩
+  intro i hi
+  simp [hi, TblRow.out]
+
 example : TblWf ⟨['0'], [['1','0','.','5'], ['9','0','.','0'], ['0','.','0']], [['1','.','5'], ['2','.','5'], ['3','.','5']], ['0','.','9']⟩ :=
   { ang := rfl, trans := rfl, toks := by decide }
+example : (readTbl (writeTblOpts (some ['s','u','b']) ['1','.','0'] (some ['1','6'])
+      [⟨['0'], [['7'], ['8'], ['9']], [['1'], ['2'], ['3']], ['5']⟩])) =
+    .ok [⟨[['1'], ['2'], ['3']], [['7'], ['8'], ['9']], ['5']⟩] := by decide
 example : (readTbl (writeTbl ['1','.','0'] [⟨['0'], [['7'], ['8'], ['9']], [['1'], ['2'], ['3']], ['5']⟩])) =
     .ok [⟨[['1'], ['2'], ['3']], [['7'], ['8'], ['9']], ['5']⟩] := by decide
 
-/-! ## RELION STAR (partial)
+/-! ## RELION STAR
 
-Full statement (not proved in general, validated by Leg B on every run — writer bytes and parser
-tokens are compared with the real code, and the round trip is evaluated on the real code):
+Full statement, proved below for every number of rows, every well-formed token list and every combination of
+the optional arguments (`name` none / one string / a list, `ctf_image` none / given), for both ways the reader
+is called (`delimiter=None`, `delimiter="\t"`):
 
-    readStar none (writeStar size sampling name ctf rows) =
+    writeStar size sampling name ctf rows >>= readStar delim =
       .ok ⟨[rows.map z, rows.map y, rows.map x], [rows.map rot, rows.map tilt, rows.map psi]⟩
 
-Proved below: the particle lines written from tokens are split back into exactly those tokens and
-appended to the current loop block in row order (`star_rows_partial`), and the columns the parser
-zips with the header are the per-row projections in row order (`star_columns_partial`).  Missing: the
-evaluation of the fixed header lines through `parseFold` and the header/column dictionary lookups
-(closed instances are checked by `decide` in the examples). -/
+The proof evaluates the fixed header lines through the parser's state machine (`parseFold`) symbolically
+(`parseStar_written` in Proofs/C11Star.lean: optics category flushed when `data_particles` opens, every `_rln…`
+line adding its key, the particle lines appended to the block), shows that the final dictionary pairs the column
+names in file order with the columns of the block (`buildDict_nodup`, `flush_columns`), and discharges the six
+look-ups `_rlnCoordinateZ/Y/X`, `_rlnAngleRot/Tilt/Psi` for all six header layouts (`pcols_idx`).
+What stays with the correspondence check (Leg B): that the model's writer / parser are the code's (bytes and
+tokens compared on every run), numpy's printing / parsing of the numbers and scipy's Euler conversion. -/
 
-/-- every written particle line (tab-joined whitespace-free tokens, not starting like a keyword)
-is split back into its tokens and appended to the block, order preserved, header state untouched -/
+/-- **STAR round trip** (`delimiter=None`): for every particle list (0..N rows) of well-formed tokens, every
+`name` argument (absent, one token, one token per particle) and `ctf_image` (absent or a token), the writer
+succeeds and the reader gives back the coordinate columns in the stored z, y, x order and the three angle
+columns, one entry per particle in file order -/
+theorem star_roundtrip (size sampling : Str) (name : NameArg) (ctf : Option Str) (rows : List StarRow)
+    (hsz : tokWf size) (hsa : tokWf sampling) (hn : NameOk name rows.length) (hc : ∀ s, ctf = some s → tokWf s)
+    (hr : ∀ r ∈ rows, StarWf r) :
+    (writeStar size sampling name ctf rows).bind (readStar none) = .ok (StarOut.ofRows rows) := by
+  obtain ⟨text, hw, hrd, _⟩ := star_written_read none (Or.inl rfl) size sampling name ctf rows hsz hsa hn hc hr
+  rw [hw]; exact hrd
+
+/-- the same with `delimiter="\t"` (how RELION files are usually read) -/
+theorem star_roundtrip_tab (size sampling : Str) (name : NameArg) (ctf : Option Str) (rows : List StarRow)
+    (hsz : tokWf size) (hsa : tokWf sampling) (hn : NameOk name rows.length) (hc : ∀ s, ctf = some s → tokWf s)
+    (hr : ∀ r ∈ rows, StarWf r) :
+    (writeStar size sampling name ctf rows).bind (readStar (some '\t')) = .ok (StarOut.ofRows rows) := by
+  obtain ⟨text, hw, hrd, _⟩ := star_written_read (some '\t') (Or.inr rfl) size sampling name ctf rows hsz hsa hn hc hr
+  rw [hw]; exact hrd
+
+/-- in the form "whatever text the writer returned": writing succeeds, and every text it can return reads back -/
+theorem star_roundtrip_text (size sampling : Str) (name : NameArg) (ctf : Option Str) (rows : List StarRow)
+    (hsz : tokWf size) (hsa : tokWf sampling) (hn : NameOk name rows.length) (hc : ∀ s, ctf = some s → tokWf s)
+    (hr : ∀ r ∈ rows, StarWf r) :
+    (∃ text, writeStar size sampling name ctf rows = .ok text) ∧
+    ∀ text, writeStar size sampling name ctf rows = .ok text →
+      readStar none text = .ok (StarOut.ofRows rows) ∧ readStar (some '\t') text = .ok (StarOut.ofRows rows) := by
+  obtain ⟨t1, hw1, hr1, _⟩ := star_written_read none (Or.inl rfl) size sampling name ctf rows hsz hsa hn hc hr
+  obtain ⟨t2, hw2, hr2, _⟩ := star_written_read (some '\t') (Or.inr rfl) size sampling name ctf rows hsz hsa hn hc hr
+  refine ⟨⟨t1, hw1⟩, ?_⟩
+  intro text ht
+  rw [ht] at hw1 hw2
+  injection hw1 with hw1; injection hw2 with hw2
+  subst hw1; subst hw2
+  exact ⟨hr1, hr2⟩
+
+/-- the whole `data_particles` dictionary of a written file: exactly the column names of the header in file
+order (7, 8 or 9 of them, depending on `name` / `ctf_image`), each with one entry per particle -/
+theorem star_particles_dict (size sampling : Str) (name : NameArg) (ctf : Option Str) (rows : List StarRow)
+    (hsz : tokWf size) (hsa : tokWf sampling) (hn : NameOk name rows.length) (hc : ∀ s, ctf = some s → tokWf s)
+    (hr : ∀ r ∈ rows, StarWf r) :
+    ∃ text cols, writeStar size sampling name ctf rows = .ok text ∧
+      particles none text = .ok ((pcols name ctf).zip cols) ∧ cols.length = (pcols name ctf).length ∧
+      ∀ c ∈ cols, c.length = rows.length := by
+  obtain ⟨text, hw, _, cols, hl, hc', hp⟩ := star_written_read none (Or.inl rfl) size sampling name ctf rows hsz hsa hn hc hr
+  exact ⟨text, cols, hw, hp, by rw [hl, pcols_length], hc'⟩
+
+/-- number of entries and order: what is read back has one entry per written particle in every column, and the
+i-th entries are the i-th particle's coordinates (stored z, y, x order) and angles -/
+theorem star_roundtrip_entries (rows : List StarRow) (hr : ∀ r ∈ rows, StarWf r) :
+    (∀ c ∈ (StarOut.ofRows rows).trans ++ (StarOut.ofRows rows).ang, c.length = rows.length) ∧
+    ∀ i (hi : i < rows.length), (StarOut.ofRows rows).trans.map (fun c => c.getD i []) = rows[i].trans ∧
+      (StarOut.ofRows rows).ang.map (fun c => c.getD i []) = rows[i].ang := by
+  refine ⟨by simp [StarOut.ofRows], ?_⟩
+  intro i hi
+  obtain ⟨ht, ha, _, _⟩ := hr rows[i] (List.getElem_mem hi)
+  simp only [StarOut.ofRows, List.map_cons, List.map_nil, List.getD_eq_getElem?_getD, List.getElem?_map,
+    List.getElem?_eq_getElem hi, Option.map_some, Option.getD_some]
+  generalize rows[i] = r at ht ha ⊢
+  obtain ⟨trans, ang⟩ := r
+  simp only at ht ha
+  match trans, ht, ang, ha with
+  | [z, y, x], _, [a, b, c], _ => exact ⟨rfl, rfl⟩
+
+/-- a `name` list shorter than the particle list is the writer's `IndexError`, not a damaged file -/
+theorem star_name_list_too_short :
+    writeStar ['0'] ['1','.','0'] (.many [['a']]) none
+      [⟨[['1'],['2'],['3']], [['7'],['8'],['9']]⟩, ⟨[['4'],['5'],['6']], [['7'],['8'],['9']]⟩] = .error .indexError := by
+  decide
+
+/-- (corollary, kept from the partial result) every written particle line (tab-joined whitespace-free tokens, not
+starting like a keyword) is split back into its tokens and appended to the block, order preserved, header state
+untouched -/
 theorem star_rows_partial (ret : Cats) (cat : Option Str) (blk : List (List Str)) (rows : List (List Str))
     (hw : ∀ toks ∈ rows, rowWf toks) (hl : ∀ toks ∈ rows, isDataLine (joinSep '\t' toks) = true) :
     parseFold none ⟨ret, cat, blk⟩ (rows.map (joinSep '\t')) = .ok ⟨ret, cat, blk ++ rows⟩ := by
@@ -247,12 +391,41 @@ theorem star_rows_partial (ret : Cats) (cat : Option Str) (blk : List (List Str)
     List.map_congr_left (fun toks ht => splitWs_joinSep '\t' (by decide) toks (hw toks ht))
   rw [this, List.map_id]
 
-/-- the columns of a rectangular block are the per-row projections, rows in file order -/
+/-- (corollary, kept from the partial result) the columns of a rectangular block are the per-row projections,
+rows in file order -/
 theorem star_columns_partial (block : List (List Str)) (m : Nat) (hne : block ≠ [])
     (h : ∀ r ∈ block, r.length = m) :
     transpose block = (List.range m).map (fun j => block.map (fun r => r.getD j [])) :=
   transpose_uniform block m hne h
 
+example : StarWf ⟨[['1','.','5'], ['-','2','.','0'], ['n','a','n']], [['9','0','.','0'], ['0','.','0'], ['-','4','5','.','5']]⟩ :=
+  { trans := rfl, ang := rfl, toks := by decide, first := by decide }
+example : NameOk (.many [['a','.','m','r','c'], ['b','.','m','r','c'], ['c']]) 2 := by
+  intro k hk
+  match k, hk with
+  | 0, _ => exact ⟨_, rfl, by decide⟩
+  | 1, _ => exact ⟨_, rfl, by decide⟩
+example : NameOk (.single ['d','a','t','a','_','t','.','m','r','c']) 5 := by
+  show tokWf _; decide
+example : NameOk .none 3 := trivial
+example : ∀ s, (some ['#','c','t','f'] : Option Str) = some s → tokWf s := by
+  intro s hs; cases hs; decide
+/-- all hypotheses of `star_roundtrip` together, on a two-particle file with per-particle names and a ctf image -/
+example : (writeStar ['3','2'] ['2','.','5'] (.many [['a','.','m','r','c'], ['_','b']]) (some ['#','c'])
+      [⟨[['1','.','5'],['2'],['i','n','f']], [['7'],['8'],['9']]⟩, ⟨[['4'],['5'],['-','6','e','-','0','5']], [['1','0'],['2','0'],['3','0']]⟩]).bind
+      (readStar none) =
+    .ok ⟨[[['1','.','5'],['4']], [['2'],['5']], [['i','n','f'],['-','6','e','-','0','5']]],
+         [[['7'],['1','0']], [['8'],['2','0']], [['9'],['3','0']]]⟩ := by
+  refine star_roundtrip _ _ _ _ _ (by decide) (by decide) ?_ (by intro s hs; cases hs; decide) ?_
+  · intro k hk
+    match k, hk with
+    | 0, _ => exact ⟨_, rfl, by decide⟩
+    | 1, _ => exact ⟨_, rfl, by decide⟩
+  · intro r hr
+    simp only [List.mem_cons, List.mem_nil_iff, or_false] at hr
+    rcases hr with rfl | rfl
+    · exact { trans := rfl, ang := rfl, toks := by decide, first := by decide }
+    · exact { trans := rfl, ang := rfl, toks := by decide, first := by decide }
 example : isDataLine (joinSep '\t' [['3','.','5'], ['2'], ['1'], ['9','0'], ['0'], ['0'], ['1']]) = true := by decide
 example : (match writeStar ['0'] ['1','.','0'] .none none
       [⟨[['1'],['2'],['3']], [['7'],['8'],['9']]⟩, ⟨[['4'],['5'],['6']], [['1','0'],['2','0'],['3','0']]⟩] with
@@ -263,6 +436,8 @@ example : (match writeStar ['0'] ['1','.','0'] (.single ['t','.','m','r','c']) (
     | .ok t => readStar none t | .error e => .error e) = .ok ⟨[[['1']], [['2']], [['3']]], [[['7']], [['8']], [['9']]]⟩ := by decide
 example : (match writeStar ['0'] ['1','.','0'] .none none [] with
     | .ok t => readStar none t | .error e => .error e) = .ok ⟨[[], [], []], [[], [], []]⟩ := by decide
+example : StarOut.ofRows [⟨[['1'],['2'],['3']], [['7'],['8'],['9']]⟩, ⟨[['4'],['5'],['6']], [['1','0'],['2','0'],['3','0']]⟩] =
+    ⟨[[['1'],['4']], [['2'],['5']], [['3'],['6']]], [[['7'],['1','0']], [['8'],['2','0']], [['9'],['3','0']]]⟩ := by decide
 
 /-! ## index-based subsetting -/
 
